@@ -229,14 +229,19 @@ structure GSt where
   devInfoChanged : Bool := false
   instDescChanged : Bool := false
 
-/-- `GetProductInformation(iDev)`: the device's own, else the first device's -/
+/-- `DefProductInformation`: what the first device has when the application set nothing -/
+def Prod.dflt : Prod :=
+  ⟨2101, 666, "Arduino N2k->PC".toUTF8.toList.map (·.toNat), "1.0.0.0".toUTF8.toList.map (·.toNat),
+   "1.0.0".toUTF8.toList.map (·.toNat), "00000001".toUTF8.toList.map (·.toNat), 0, 1⟩
+
+/-- `GetProductInformation(iDev)`: the device's own, else the first device's (which is the library default if never set) -/
 def prodOf (g : GSt) (i : Nat) : Option Prod :=
   match g.attrs[i]? with
   | none => none
   | some a => match a.prod with
     | some p => some p
     | none => match g.attrs[0]? with
-      | some a0 => a0.prod
+      | some a0 => some (a0.prod.getD Prod.dflt)
       | none => none
 
 def Prod.zero : Prod := ⟨0, 0, [], [], [], [], 0, 0⟩
